@@ -14,6 +14,7 @@ mod c16;
 mod c18;
 mod c15;
 mod c19;
+mod c20;
 mod codes;
 mod common;
 mod explore;
@@ -73,6 +74,7 @@ fn main() {
                 "C07" => c07::run(&ctx),
                 "C15" => c15::run(&ctx),
                 "C19" => c19::run(&ctx),
+                "C20" => c20::run(&ctx),
                 "C16" => {
                     let mut o = c16::run(&ctx, "C16");
                     o.set("rule", serde_json::json!("X2 on T2: breadth-first search (iterative deepening, canonical-digest de-duplication) over the real client sending on two streams against a scripted peer; events: reserve_capacity / send_data / end / reset / drop / poll_capacity per stream, peer WINDOW_UPDATE (connection, stream), SETTINGS INITIAL_WINDOW_SIZE up and down, RST_STREAM, connection polls with open / budgeted / blocked writes. In every state capacity(s) <= wire credit of s minus queued, sum of capacities <= connection credit, poll_capacity never Ok(0); from every new state the epilogue checks that the largest capacity is usable without a further grant, that free connection capacity has reached streams asking for more, and that no capacity waiter was left unwoken"));
@@ -105,7 +107,9 @@ fn main() {
             let v: serde_json::Value = serde_json::from_str(&txt).expect("replay file is not JSON");
             let h = v["harness"].as_str().unwrap_or("").to_string();
             println!("replaying {} (property {}, rule {})", h, v["property"], v["rule"]);
-            let violated = if h == "c07.t1" {
+            let violated = if h == "pingloom" || h.starts_with("x2.threads") {
+                c20::replay(&v).unwrap_or(false)
+            } else if h == "c07.t1" {
                 c07::replay_c07(&v)
             } else if h.starts_with("c11.") {
                 c11::replay(&v)
